@@ -24,7 +24,7 @@ RULE = ("one `whatshap phase` CLI run over a generated pedigree scenario (1-3 ch
         "unrelated samples, random subset of --output-read-list/--changed-genotype-list/--recombination-list, "
         "with/without --ped (also with ignorable / reordered PED lines), --distrust-genotypes(+genotype errors), --chromosome/--sample "
         "selections incl. a selection that matches no chromosome, list paths that already exist, both tags). "
-        "Non-trivial: at least two (chromosome, family) instances were processed and at least one requested list has "
+        "plus in-process cases (round 10): generated PED texts for PedReader, sample selections, inputs of find_recombination / write_recombination_list. Non-trivial: at least two (chromosome, family) instances were processed and at least one requested list has "
         "data rows; distinct = distinct (generator seed, options)")
 MANIFEST = dict(
     text="Lean 4 theorems about a state-machine model of the chromosome x family loop of run_whatshap over the three "
@@ -103,6 +103,11 @@ def gen_case(rng, scale=1):
         opts["chromosomes"] = ["chrNope"]
     if opts["ped"] and r2.random() < 0.5:
         opts["ped_extra"] = r2.choice(["ghost-child", "unknown-parent", "comment", "reversed", "ghost-child+reversed"])
+    # round 10: --use-ped-samples (samples = PedReader.samples(): the unrelated samples of the VCF are not phased)
+    if opts["ped"] and not opts["samples"] and r2.random() < 0.2:
+        opts["use_ped"] = True
+        if "ghost" in (opts.get("ped_extra") or ""):
+            opts["ped_extra"] = "reversed"            # an individual outside the VCF is a CommandLineError here
     return case
 
 
@@ -152,6 +157,8 @@ def cli_args(case, fa, bam, vcf, ped, out, files):
         a += ["--ped", ped, "--recombrate", o["recombrate"]]
         if o.get("no_genetic"):
             a += ["--no-genetic-haplotyping"]
+        if o.get("use_ped"):
+            a += ["--use-ped-samples"]
     for c in o.get("chromosomes") or []:
         a += ["--chromosome", c]
     for s in o.get("samples") or []:
@@ -428,6 +435,10 @@ def run_case(ctx, case, n):
                          "gtChanges": ans.get("changes", [])})
     freq = {"op": "c20.files", "opts": mopts, "pre": pre, "chroms": chroms_f}
     used_samples = list(o.get("samples") or samples)
+    if o.get("use_ped") and o["ped"]:
+        sel = ctx.model.ask_many([{"op": "c20.samples", "vcf": list(samples), "cli": [], "ped": ped_lines(ptext), "usePed": True}])[0]
+        used_samples = sel.get("samples", [])
+        ctx.dist("use_ped_samples", f"{len(used_samples)}/{len(samples)}")
     oreq = {"op": "c20.order", "chroms": [[c, c in processed] for c, _ in blocks], "samples": used_samples,
             "ped": ped_lines(ptext) if o["ped"] else []}
     f_fix, f_cur, order = ctx.model.ask_many([dict(freq, createAtStart=True), dict(freq, createAtStart=False), oreq])
@@ -505,6 +516,248 @@ def families_level(ctx):
             ctx.disagree("c20.families", {"samples": req["samples"], "ped": req["ped"]}, real["families"], model.get("families"))
 
 
+# ------------------------------------------------------------------------------------------------
+# round 10: PedReader at text level, sample selection, find_recombination with its assertions (all in-process)
+# ------------------------------------------------------------------------------------------------
+
+def _ask_chunks(ctx, reqs, size=100):
+    out = []
+    for i in range(0, len(reqs), size):
+        out += ctx.model.ask_many(reqs[i:i + size])
+    return out
+
+
+def ped_text_level(ctx):
+    """the real `PedReader` on generated PED *text* (as stream and as file; valid, with duplicates, malformed) against
+    `c20.ped` (`parsePed`, `pedSamples`, `keptTrios`); oracle: the statements of `ped_trios_are_complete_lines`,
+    `ped_duplicate_rejected`, `ped_samples_order_is_file_order` evaluated on what the real reader returned"""
+    import io, logging
+    from whatshap.pedigree import PedReader, ParseError
+    from whatshap.cli.phase import setup_pedigree
+    from harness.gen.c20_deep import gen_ped_text, NAMES
+    rng, d = ctx.rng, ctx.workdir()
+    reqs, reals = [], []
+    logging.disable(logging.CRITICAL)
+    try:
+        for n in range((400 if ctx.quick else 4000) * ctx.scale):
+            via_path = rng.random() < 0.4
+            text = gen_ped_text(rng, ascii_only=via_path)
+            case = {"kind": "ped-text", "text": text, "viaPath": via_path}
+            samples = rng.sample(NAMES, rng.randrange(1, len(NAMES) + 1))
+            path = os.path.join(d, "t.ped")
+            if via_path:
+                with open(path, "wb") as f:
+                    f.write(text.encode("ascii"))
+            try:
+                reader = PedReader(path) if via_path else PedReader(io.StringIO(text))
+                real = {"trios": [[t.child, t.father, t.mother] for t in reader], "samples": list(reader.samples())}
+                real["kept"] = [[t.father, t.mother, t.child] for t in setup_pedigree(path, samples)[0]] if via_path else None
+            except ParseError as e:
+                msg = str(e)
+                real = {"error": "fields" if "Less than six" in msg else "duplicate", "msg": msg}
+            except Exception as e:                               # anything else is not a documented outcome
+                real = {"error": type(e).__name__, "msg": str(e)}
+                ctx.fail(f"PedReader raised {type(e).__name__}: {e}", case, key="ped-crash")
+            ctx.evaluated()
+            # --- oracle: the property-level statements on the real outcome (independent of the model)
+            eff = text
+            if via_path:
+                eff = text.replace("\r\n", "\n").replace("\r", "\n")
+            raw_lines = [l for l in eff.split("\n")]
+            data = [l for i, l in enumerate(raw_lines) if not l.startswith("#") and not (l == "" )]
+            # (a line that is "" here was "\n" in the stream, or the empty rest after the final terminator)
+            fields = [l.split() for l in data]
+            short = any(len(f) < 6 for f in fields)
+            inds = [f[1] for f in fields if len(f) >= 6]
+            dups = sorted({x for x in inds if inds.count(x) > 1})
+            if "error" not in real:
+                ch = [t[0] for t in real["trios"]]
+                if len(set(ch)) != len(ch):
+                    ctx.fail(f"PedReader accepted a PED file that lists an individual twice: {ch}", case, key="ped-duplicate-accepted")
+                if short:
+                    ctx.fail("PedReader accepted a line with fewer than six fields", case, key="ped-short-line-accepted")
+                exp = [[f[1], None if f[2] == "0" else f[2], None if f[3] == "0" else f[3]] for f in fields if len(f) >= 6]
+                if not short and real["trios"] != exp:
+                    ctx.fail(f"PedReader trios are not the data lines of the file: {real['trios']} vs {exp}", case, key="ped-trios")
+                first = []
+                for c, fa, mo in real["trios"]:
+                    if fa is not None and mo is not None:
+                        for x in (c, fa, mo):
+                            if x not in first:
+                                first.append(x)
+                if real["samples"] != first:
+                    ctx.fail(f"PedReader.samples() {real['samples']} is not the file order of the complete lines {first}", case,
+                             key="ped-samples-order")
+                if real.get("kept") is not None:
+                    expk = [[fa, mo, c] for c, fa, mo in real["trios"] if fa is not None and mo is not None
+                            and fa in samples and mo in samples and c in samples]
+                    if real["kept"] != expk:
+                        ctx.fail(f"setup_pedigree kept {real['kept']}, complete lines among the samples are {expk}", case, key="ped-kept")
+                if len(real["trios"]) >= 2 and first:
+                    ctx.nontrivial(("ped", text))
+            else:
+                if real["error"] == "duplicate" and not dups:
+                    ctx.fail(f"PedReader rejected a PED file without duplicate individual: {real['msg']}", case, key="ped-false-duplicate")
+                if real["error"] == "fields" and not short:
+                    ctx.fail("PedReader rejected a PED file whose data lines all have six fields", case, key="ped-false-short")
+            ctx.dist("ped_text_outcome", real.get("error", "ok"))
+            reqs.append({"op": "c20.ped", "text": text, "viaPath": via_path, "samples": samples})
+            reals.append((case, real))
+            if via_path:
+                os.remove(path)
+    finally:
+        logging.disable(logging.NOTSET)
+    for (case, real), m in zip(reals, _ask_chunks(ctx, reqs)):
+        if "error" in real:
+            ok = m.get("error") == real["error"] and (real["error"] != "duplicate" or
+                                                       real["msg"] == f"Individual {m.get('id')!r} occurs more than once in PED file")
+            if not ok:
+                ctx.disagree("c20.ped[error]", case, real, m)
+        else:
+            if m.get("trios") != real["trios"]:
+                ctx.disagree("c20.ped[trios]", case, real["trios"], m.get("trios", m))
+            elif m.get("samples") != real["samples"]:
+                ctx.disagree("c20.ped[samples]", case, real["samples"], m.get("samples"))
+            elif real.get("kept") is not None and m.get("kept") != real["kept"]:
+                ctx.disagree("c20.ped[kept]", case, real["kept"], m.get("kept"))
+
+
+def samples_level(ctx):
+    """`--use-ped-samples`: the two statements of `run_whatshap` (`PedReader(ped).samples()`, then the real
+    `raise_if_any_sample_not_in_vcf`) against `c20.samples` (`selectSamples`)"""
+    from whatshap.pedigree import PedReader
+    from whatshap.cli.phase import raise_if_any_sample_not_in_vcf
+    from whatshap.cli import CommandLineError
+    from harness.gen.c20_deep import gen_selection
+    rng, d = ctx.rng, ctx.workdir()
+
+    class FakeReader:
+        def __init__(self, samples):
+            self.samples = samples
+    reqs, reals = [], []
+    path = os.path.join(d, "s.ped")
+    for n in range((200 if ctx.quick else 2000) * ctx.scale):
+        vcf, cli, ped, use_ped = gen_selection(rng)
+        case = {"kind": "selection", "vcf": vcf, "cli": cli, "ped": ped, "usePed": use_ped}
+        samples = list(cli) if cli else list(vcf)              # `if not samples: samples = vcf_reader.samples`
+        if ped is not None and use_ped:
+            with open(path, "w") as f:
+                for c, fa, mo in ped:
+                    f.write(f"f\t{c}\t{fa or '0'}\t{mo or '0'}\t0\t0\n")
+            samples = PedReader(path).samples()
+            os.remove(path)
+        try:
+            raise_if_any_sample_not_in_vcf(FakeReader(vcf), samples)
+            real = {"samples": list(samples)}
+            if any(s not in vcf for s in samples):
+                ctx.fail(f"samples {samples} selected although the VCF only has {vcf}", case, key="selection-not-in-vcf")
+        except CommandLineError as e:
+            missing = [s for s in samples if s not in vcf]
+            real = {"error": missing[0] if missing and repr(missing[0]) in str(e) else str(e)}
+            if not missing:
+                ctx.fail("sample selection rejected although every sample is in the VCF", case, key="selection-false-error")
+        ctx.evaluated()
+        reqs.append({"op": "c20.samples", "vcf": vcf, "cli": cli, "ped": ped, "usePed": use_ped})
+        reals.append((case, real))
+    for (case, real), m in zip(reals, _ask_chunks(ctx, reqs)):
+        if m != real:
+            ctx.disagree("c20.samples", case, real, m)
+
+
+def findrec_level(ctx):
+    """the real `find_recombination` / `write_recombination_list` in-process on generated transmission vectors,
+    components, positions and costs (incl. no position, one position, violated preconditions) against `c20.findrec`
+    (`findRecombinationA`) and `c20.recrows` (`recombRowsA`); oracle: `find_recombination_assert_free` (no
+    AssertionError under the caller's invariants), `recomb_rows_complete`/`recomb_rows_sorted` on the real events"""
+    import logging
+    from whatshap.pedigree import find_recombination, Trio
+    from whatshap.cli.phase import write_recombination_list
+    from harness.gen.c20_deep import gen_findrec
+    rng, d = ctx.rng, ctx.workdir()
+    reqs, reals = [], []
+    logging.disable(logging.CRITICAL)
+    try:
+        for n in range((400 if ctx.quick else 4000) * ctx.scale):
+            tv, comps, positions, recomb, ok = gen_findrec(rng)
+            case = {"kind": "findrec", "tv": tv, "comps": comps, "positions": positions, "recomb": recomb}
+            try:
+                ev = find_recombination(list(tv), {p: b for p, b in comps}, list(positions), list(recomb))
+                real = {"events": [[e.position1, e.position2, e.transmitted_hap_father1, e.transmitted_hap_father2,
+                                    e.transmitted_hap_mother1, e.transmitted_hap_mother2, e.recombination_cost] for e in ev]}
+            except AssertionError:
+                real = {"assert": True}
+            except Exception as e:
+                real = {"raised": type(e).__name__}
+            ctx.evaluated()
+            if ok:
+                if "events" not in real:
+                    ctx.fail(f"find_recombination fails ({real}) although the transmission vector and the costs have one entry "
+                             f"per accessible position and every component key is a position", case, key="findrec-assert")
+                else:
+                    idx = {p: i for i, p in enumerate(positions)}
+                    blocks = {}
+                    for p, b in comps:
+                        blocks.setdefault(b, []).append(p)
+                    exp = []
+                    for b, mem in blocks.items():
+                        mem.sort()
+                        for i in range(2, len(mem)):
+                            x, y = tv[idx[mem[i - 1]]], tv[idx[mem[i]]]
+                            if x != y:
+                                exp.append([mem[i - 1], mem[i], x % 2, y % 2, x // 2, y // 2, recomb[idx[mem[i]]]])
+                    got = real["events"]
+                    for e in exp:
+                        if got.count(e) != 1:
+                            ctx.fail(f"change of the transmission value between neighbours {e[0]},{e[1]} of a phase set is listed "
+                                     f"{got.count(e)} times", case, key="findrec-complete")
+                            break
+                    else:
+                        if len(got) != len(exp):
+                            ctx.fail(f"find_recombination lists {len(got)} events, {len(exp)} changes exist", case, key="findrec-sound")
+                        elif any(a[0] >= b[0] for a, b in zip(got, got[1:])):
+                            ctx.fail("events of find_recombination are not sorted by position", case, key="findrec-sorted")
+                    if exp:
+                        ctx.nontrivial(("findrec", json.dumps(case, sort_keys=True)))
+            ctx.dist("findrec_outcome", "events" if "events" in real else ("assert" if "assert" in real else "raised"))
+            reqs.append({"op": "c20.findrec", "f22": True, "tv": tv, "comps": comps, "positions": positions, "recomb": recomb})
+            reals.append(("c20.findrec", case, real))
+        # the writer with its per-child dict: 0-3 trios, sometimes a child named twice (what `_sanity_check` excludes)
+        path = os.path.join(d, "rec.txt")
+        for n in range((150 if ctx.quick else 1500) * ctx.scale):
+            tv, comps, positions, recomb, ok = gen_findrec(rng)
+            k = rng.choice([0, 1, 1, 2, 3])
+            children = [f"c{i}" for i in range(k)]
+            if k >= 2 and rng.random() < 0.12:
+                children[-1] = children[0]; ok = ok and not positions
+            tv = [rng.randrange(4 ** max(k, 1)) if rng.random() < 0.4 else (tv[i - 1] if i else 0) for i, v in enumerate(tv)]
+            inst = {"chrom": "chrQ", "reads": [], "partition": [], "comps": comps, "positions": positions, "recomb": recomb,
+                    "tv": tv, "children": children}
+            case = {"kind": "recrows", "inst": inst}
+            try:
+                nrec = write_recombination_list(path, "chrQ", list(positions), {p: b for p, b in comps}, list(recomb), list(tv),
+                                                [Trio(child=c, father="f", mother="m") for c in children])
+                rows = [l.split(" ") for l in open(path).read().splitlines()[1:]]
+                real = {"rows": [[r[0], r[1]] + [int(x) for x in r[2:]] for r in rows]}
+                if nrec != len(rows):
+                    ctx.fail(f"write_recombination_list returned {nrec} for {len(rows)} rows", case, key="recrows-count")
+            except AssertionError:
+                real = {"assert": True}
+            except Exception as e:
+                real = {"raised": type(e).__name__}
+            ctx.evaluated()
+            if ok and k and "rows" not in real:
+                ctx.fail(f"write_recombination_list fails ({real}) under the caller's invariants", case, key="findrec-assert")
+            reqs.append({"op": "c20.recrows", "inst": inst})
+            reals.append(("c20.recrows", case, real))
+        if os.path.exists(path):
+            os.remove(path)
+    finally:
+        logging.disable(logging.NOTSET)
+    for (op, case, real), m in zip(reals, _ask_chunks(ctx, reqs)):
+        if m != real:
+            ctx.disagree(op, case, real, m)
+
+
 def run(ctx):
     cases = [c for _, c in ctx.corpus()]
     if ctx.replay:
@@ -515,6 +768,9 @@ def run(ctx):
     if ctx.replay:
         return
     families_level(ctx)
+    ped_text_level(ctx)
+    samples_level(ctx)
+    findrec_level(ctx)
     total = (36 if ctx.quick else 300) * ctx.scale
     for _ in range(total):
         run_case(ctx, gen_case(ctx.rng, scale=1 if ctx.quick else 2), n); n += 1
